@@ -147,9 +147,8 @@ func vdur(ns int64) *TTMLInDuration { return &TTMLInDuration{d: time.Duration(ns
 
 // C03 H3: everything ReadFromTTML does after decoding: style inheritance links, region/style references, absent
 // begin/end, lines split at <br/>, metadata and language mapping.
-func VH_C03_PostDecode() {
-	vmode("int")
-	k := choose(vbound("shapes", 16, 48))
+// vc03Doc: decoded-value model number k of a TTML document.
+func vc03Doc(k int, st1 int64) (*TTMLIn, TTMLInItems, []string, []string, TTMLInSubtitle) {
 	ns := 1 + k%3
 	doc := &TTMLIn{Framerate: 25, Lang: []string{"fr", "en-US", "xx", "no", "ja"}[k%5], Metadata: TTMLInMetadata{Title: "T", Copyright: "C"}}
 	ids := []string{"s0", "s1", "s2"}
@@ -180,7 +179,6 @@ func VH_C03_PostDecode() {
 	reg.ID = "r0"
 	reg.Style = ids[k%ns]
 	doc.Regions = append(doc.Regions, reg)
-	st1 := nondetInt64(0, 3600) * 1000000000
 	sub := TTMLInSubtitle{Begin: vdur(st1), End: vdur(st1 + 1000000000), Region: "r0", Style: ids[(k+1)%ns]}
 	if k%5 == 4 {
 		sub.Begin = nil // a paragraph without begin
@@ -191,6 +189,15 @@ func VH_C03_PostDecode() {
 	doc.Subtitles = append(doc.Subtitles, sub)
 	// items of the paragraph: text, a br element, a span with a style and an embedded line break
 	items := TTMLInItems{{Text: "first"}, {XMLName: xml.Name{Local: "br"}}, {Text: "second\nthird", XMLName: xml.Name{Local: "span"}, Style: ids[0]}}
+	return doc, items, ids[:ns], parent, sub
+}
+
+func VH_C03_PostDecode() {
+	vmode("int")
+	k := choose(vbound("shapes", 16, 48))
+	st1 := nondetInt64(0, 3600) * 1000000000
+	doc, items, ids, parent, sub := vc03Doc(k, st1)
+	ns := len(ids)
 	vttmlDoc, vttmlItems, vttmlItemsPos = doc, []TTMLInItems{items}, 0
 	undefined := false
 	for _, p := range parent {
